@@ -93,3 +93,33 @@ def run_class(ctx, m, spec, rule_t1, rule_tx, entry_zero=(), suppress=()):
         if not tx_seen and f.kind != "dtor":
             rule_tx.ob(f.sig, "exit state", True, "payload and discriminant agree (or the payload is zero) on every exit", "%s:%d" % (f.file.split("/Include/")[-1], f.line), nontrivial=False)
     return n_fn
+
+
+def tagbit_spec(m):
+    en = m.enum("Qentem::Tags::TagType")
+    kinds = [e["n"] for e in en["enumerators"]]
+    accessors = {}
+    makers = {}
+    for f in m.functions:
+        if f.cls != "Qentem::Tags::TagBit" or f.inst:
+            continue
+        if f.name.startswith("Get") and f.name.endswith("Tag") and not f.params:
+            rec = f.d.get("ret", "").replace("&", "").replace("const", "").strip().split("::")[-1]
+            accessors[f.name] = rec
+        if f.name.startswith("Make") and f.name.endswith("Tag"):
+            ks = [f.nodes[x]["n"] for x in f.walk() if f.nodes[x]["k"] == "DeclRefExpr" and f.nodes[x].get("dk") == "enumc" and (f.nodes[x].get("q") or "").startswith("Qentem::Tags::TagType::")]
+            if len(ks) == 1:
+                makers[f.name] = ks[0]
+    if len(accessors) < 6 or len(makers) < 7:
+        raise AnalysisBroken("TagBit: accessors/makers not recognised (%d/%d)" % (len(accessors), len(makers)))
+    # record type -> kinds, from the makers: MakeLoopTag allocates LoopTag and sets Loop
+    rec_kinds = {}
+    for f in m.functions:
+        if f.cls == "Qentem::Tags::TagBit" and not f.inst and f.name in makers:
+            rec = f.d.get("ret", "").replace("*", "").strip().split("::")[-1]
+            rec_kinds.setdefault(rec, set()).add(makers[f.name])
+    acc = {name: frozenset(rec_kinds.get(rec, ())) for name, rec in accessors.items()}
+    if any(not v for v in acc.values()):
+        raise AnalysisBroken("TagBit: an accessor has no maker of the same record type: %s" % {k: sorted(v) for k, v in acc.items()})
+    return Spec("Qentem::Tags::TagBit", "Qentem::Tags::TagType", kinds, {}, [k for k in kinds if k != "None"], {"GetType"}, {}, makers, None, "Clear",
+                accessors=acc, type_field="type_")
